@@ -42,14 +42,18 @@ def confirm(sid):
         p, f = counts(log)
         res["suite_with_change"] = {"rc": rc, "passed": p, "failed": f}
         demo = os.path.join(d, "seeded_demo.rs")
-        shutil.copy(demo, os.path.join(wt, "join", "tests", "seeded_demo.rs"))
-        rc, log = sh("cargo test -p join --offline --test seeded_demo", wt)
+        # a demo that drives the internal API (`extern crate join_impl` without the `join` macros) is a join_impl test
+        text = open(demo).read()
+        crate = "join_impl" if ("extern crate join_impl" in text and "extern crate join;" not in text and "use join::" not in text) else "join"
+        os.makedirs(os.path.join(wt, crate, "tests"), exist_ok=True)
+        shutil.copy(demo, os.path.join(wt, crate, "tests", "seeded_demo.rs"))
+        rc, log = sh("cargo test -p %s --offline --test seeded_demo" % crate, wt)
         p, f = counts(log)
         fails = re.findall(r"^test (\S+) \.\.\. FAILED", log, re.M)
         res["demo_with_change"] = {"rc": rc, "passed": p, "failed": f, "failing_tests": fails[:8],
                                    "compile_error": bool(re.search(r"^error(\[E\d+\])?:", log, re.M)) and not fails}
         sh("git apply -R %s" % os.path.join(d, "patch.diff"), wt)
-        rc, log = sh("cargo test -p join --offline --test seeded_demo", wt)
+        rc, log = sh("cargo test -p %s --offline --test seeded_demo" % crate, wt)
         p, f = counts(log)
         res["demo_without_change"] = {"rc": rc, "passed": p, "failed": f}
         res["ok"] = bool(res["patch_applies"] and res["suite_with_change"]["rc"] == 0 and res["suite_with_change"]["failed"] == 0
